@@ -107,7 +107,15 @@ func SchedulePromises(config *system.Config, tags map[string]string) gocoro.Coro
 				continue
 			}
 
-			if completion.Store.Results[0].CreatePromise.RowsAffected == 0 {
+			// the promise may have been created together with a task (when its tags route it)
+			var rowsAffected int64
+			if completion.Store.Results[0].Kind == t_aio.CreatePromiseAndTask {
+				rowsAffected = completion.Store.Results[0].CreatePromiseAndTask.PromiseRowsAffected
+			} else {
+				rowsAffected = completion.Store.Results[0].CreatePromise.RowsAffected
+			}
+
+			if rowsAffected == 0 {
 				slog.Warn("promise to be scheduled already exists", "promise", commands[i].Id, "schedule", result.Records[i].Id)
 			}
 		}
